@@ -527,6 +527,19 @@ class Lib:
         if len(idx) == a.ndim and all(not isinstance(x, (slice, Arr, list)) for x in idx):
             ks = tuple(self.wrap_index(i, n) for i, n in zip(idx, a.shape))
             return a.f(ks)
+        fullsl = lambda s: isinstance(s, slice) and s.start is None and s.stop is None and s.step is None
+        if a.ndim >= 3 and len(idx) == a.ndim and all(fullsl(x) or not isinstance(x, (slice, Arr, list)) for x in idx):
+            # a[:, :, k] : view over the sliced axes
+            ks = [None if fullsl(x) else self.wrap_index(x, n) for x, n in zip(idx, a.shape)]
+            shape = tuple(n for x, n in zip(idx, a.shape) if fullsl(x))
+            base = a
+
+            def fview(ix, ks=ks):
+                it = iter(ix)
+                return base.f(tuple(next(it) if k is None else k for k in ks))
+            r = Arr(shape, fview, a.dtype)
+            r.view_of = (a, tuple(ks))
+            return r
         if len(idx) == 2 and a.ndim == 2:
             i0, i1 = idx
             full = lambda s: isinstance(s, slice) and s.start is None and s.stop is None and s.step is None
@@ -724,6 +737,22 @@ class Lib:
         if isinstance(idx, tuple) and len(idx) == 1 and isinstance(idx[0], Arr) and a.ndim == 1:
             return self.arr_setitem(a, idx[0], v)
         if isinstance(idx, tuple):
+            full = lambda s: isinstance(s, slice) and s.start is None and s.stop is None and s.step is None
+            if isinstance(v, Opaque) and getattr(v, 'is_nan', False):
+                # model R has no NaN: a NaN fill is an unspecified number (sound for everything that does not test for NaN)
+                v = self.ctx.fresh_real('nan_fill')
+            if len(idx) == a.ndim and any(full(x) for x in idx) and all(full(x) or not isinstance(x, (slice, Arr, list)) for x in idx) \
+                    and not isinstance(v, Arr):
+                # a[:, :, k] = scalar : every position whose non-slice coordinates match
+                ks = [None if full(x) else self.wrap_index(x, n) for x, n in zip(idx, a.shape)]
+                vv = coerce_elem(v, dt)
+
+                def newf_s(ix, ks=ks, vv=vv):
+                    conds = [to_z3(x) == to_z3(k) for x, k in zip(ix, ks) if k is not None]
+                    c = simp(z3.And(*conds)) if conds else True
+                    return vv if c is True else (old(ix) if c is False else ite(c, vv, old(ix)))
+                a.f = newf_s
+                return
             if len(idx) != a.ndim or any(isinstance(x, (slice, Arr, list)) for x in idx):
                 raise Unsupported('tuple store %r' % (idx,))
             ks = tuple(self.wrap_index(i, n) for i, n in zip(idx, a.shape))
